@@ -30,6 +30,7 @@ import (
 
 	"verifharness/cx"
 	"verifharness/hx"
+	"verifharness/storex"
 )
 
 func main() {
@@ -342,6 +343,79 @@ func run(c hx.Config) error {
 				nm := fmt.Sprintf(w.name, s.name)
 				o.Emit(fmt.Sprintf("c04 x %s ParseAny nested:%s # %s %s.ParseAny(<%s> wrapped)", s.kind, strings.ReplaceAll(v.name, " ", "_"), s.kind, nm, v.name), obs)
 				o.Count("xnest:" + s.kind + ":" + strings.SplitN(obs, ":", 2)[0])
+			}
+		}
+	}
+	// derived schemas: every base schema type (storex.Bases) and every exported chaining method that takes no callback
+	// (reflection; arguments synthesised: schemas, key lists, constants, metadata — Pipe targets, And/Or partners,
+	// Default/Prefault values, Optional/Nilable/NonOptional, Describe, Partial, Pick …), one level deep for every
+	// method and two levels deep for a sample, × every value of the value set × ParseAny.
+	callbackFree := func(recv any, name string) bool {
+		m, ok := reflect.TypeOf(recv).MethodByName(name)
+		if !ok {
+			return false
+		}
+		for i := 1; i < m.Type.NumIn(); i++ {
+			t := m.Type.In(i)
+			if t.Kind() == reflect.Slice {
+				t = t.Elem()
+			}
+			if t.Kind() == reflect.Func {
+				return false
+			}
+		}
+		switch name {
+		case "Transform", "Refine", "RefineAny", "Overwrite", "Check", "With", "Implement", "ImplementAsync", "DefaultFunc", "PrefaultFunc":
+			return false
+		}
+		return true
+	}
+	probeDerived := func(label string, z any) {
+		for _, v := range vals {
+			in := v.v
+			var obs string
+			p := hx.Safely(func() {
+				_, err, pn := storex.ParseAny(z, in)
+				if pn != "" {
+					panic(pn)
+				}
+				obs = shape(err)
+			})
+			switch {
+			case p != "":
+				obs = "panic:" + classify(p)
+			case strings.HasPrefix(obs, "err(malformed:"):
+				obs = "malformed:" + strings.TrimSuffix(strings.TrimPrefix(obs, "err(malformed:"), ")")
+			default:
+				obs = "total"
+			}
+			o.Emit(fmt.Sprintf("c04 x derived ParseAny %s # derived %s.ParseAny(%s)", strings.ReplaceAll(v.name, " ", "_"), label, v.name), obs)
+			o.Count("xderived:" + strings.SplitN(obs, ":", 2)[0])
+		}
+	}
+	for _, b := range storex.Bases() {
+		base := b.Mk()
+		for _, m1 := range storex.Methods(base) {
+			if !callbackFree(base, m1) {
+				continue
+			}
+			for v1 := 0; v1 < 2; v1++ {
+				d1, ok, _ := storex.Call(b.Mk(), m1, v1)
+				if !ok {
+					continue
+				}
+				probeDerived(fmt.Sprintf("%s.%s/%d", b.Name, m1, v1), d1)
+				if v1 == 1 {
+					continue
+				}
+				for _, m2 := range storex.Methods(d1) {
+					if !callbackFree(d1, m2) || !(c.Thorough() || r.Intn(12) == 0) {
+						continue
+					}
+					if d2, ok2, _ := storex.Call(d1, m2, r.Intn(2)); ok2 {
+						probeDerived(fmt.Sprintf("%s.%s/0.%s", b.Name, m1, m2), d2)
+					}
+				}
 			}
 		}
 	}
